@@ -1,0 +1,11 @@
+//go:build verif
+
+// Machine-checked contracts for package http (read by /verif/govc as text).
+
+package http
+
+//@ func (e *Error) Error() (r string)
+//@   pure
+//@   ensures e == nil ==> r == "error: <nil>"
+//@   ensures e != nil && e.Message == "" ==> r == "error: empty message"
+//@   ensures e != nil && e.Message != "" ==> r == e.Message
